@@ -3,9 +3,9 @@
    default delay come from Gen/GenTrap.v, which the translator regenerates from the source after
    comparing every transcribed expression with the text below (fail-closed).
 
-   Line numbers refer to make_trapezoid.py after the three repairs of this round
-   (area/(rise/2+fall/2+flat) on the area+flat_time branch; duration check on the amplitude branch;
-   rejection of non-positive ramps / negative flat time in front of the limit checks). *)
+   Line numbers refer to make_trapezoid.py after the two repairs of this round
+   (area/(rise/2+fall/2+flat) on the area+flat_time branch; clamp of rounding noise and rejection of
+   non-positive ramps / negative flat time after the limit checks, in front of the construction). *)
 From Coq Require Import ZArith QArith Qround Qabs Bool.
 From PV Require Import Base.QUtil Gen.GenTrap.
 Open Scope Q_scope.
@@ -22,12 +22,11 @@ Inductive trap_err : Type :=
 | E_not_possible       (* AssertionError 'Requested area is too large ... Probably'       :181 *)
 | E_must_rise          (* ValueError  'Must supply `rise_time` when `area` and `flat_time`' :190 (dead) *)
 | E_ni_flat_area_dur   (* NotImplementedError 'Flat Area + Duration'                      :205 *)
-| E_dur_short_amp      (* ValueError  'The `duration` is too short for the given `amplitude`' (repair of defect 14) *)
 | E_area_or_duration   (* ValueError  'Must supply area or duration.'                     :223 *)
-| E_timing             (* ValueError  '`rise_time` and `fall_time` must be positive and `flat_time` ...' :230 *)
 | E_amp                (* ValueError  'Refined amplitude ... is larger than max'          :233 *)
 | E_slew_rise          (* ValueError  'Refined slew rate ... for ramp up'                 :231 *)
 | E_slew_fall          (* ValueError  'Refined slew rate ... for ramp down'               :236 *)
+| E_timing             (* ValueError  'Invalid timing: rise_time ... must be positive and flat_time ...' :243 (repair of defect 14) *)
 | E_unbound            (* UnboundLocalError: amplitude2 never assigned (flat_area without flat_time) *)
 | E_zerodiv            (* ZeroDivisionError                                                     *)
 | E_type               (* TypeError: arithmetic on None                                         *)
@@ -146,16 +145,7 @@ Definition flat_area_path (fa : Q) (dur ft rise0 fall0 : option Q) : tresult pat
   | None =>
     match ft with
     | Some t => if isz t then Err E_zerodiv else OK (fa / t, rise0, t, fall0) (* :207 *)
-    | None =>
-      (* amplitude2 and flat_time are never bound.  Without ramps :228 reads amplitude2
-         (UnboundLocalError); with ramps the timing test :230 compares flat_time = None (TypeError),
-         unless a non-positive ramp short-circuits the `or` first *)
-      match rise0, fall0 with
-      | None, None => Err E_unbound
-      | None, Some _ => Err E_type
-      | Some r, None => if Qle_bool r 0 then Err E_timing else Err E_type
-      | Some r, Some f => if Qle_bool r 0 || Qle_bool f 0 then Err E_timing else Err E_type
-      end
+    | None => Err E_unbound                                  (* amplitude2 is never bound: :226/:228 *)
     end
   end.
 
@@ -172,38 +162,40 @@ Definition amplitude_path (amp : Q) (dur ft rise0 fall0 : option Q) (max_slew ra
   match dur, ft with
   | Some d, None =>                                                           (* :218 *)
     match rise, fall with
-    | Some r, Some f =>
-      if Qltb d (r + f - eps) then Err E_dur_short_amp else                   (* repair of defect 14 *)
-      OK (amp, rise, Qmax (d - r - f) 0, fall)
+    | Some r, Some f => OK (amp, rise, d - r - f, fall)                       (* :219 (unchecked here) *)
     | _, _ => Err E_type
     end
   | None, Some t => OK (amp, rise, t, fall)                                   (* :220 *)
   | _, _ => Err E_area_or_duration                                            (* :223 *)
   end.
 
-(* ---- the common tail: default ramps, timing and limit checks, the returned event (:227-257) -------- *)
+(* ---- the common tail: default ramps, limit checks, timing validation, the returned event (:225-263) *)
+Definition clamp_flat (flat : Q) : Q :=
+  if Qltb (- eps) flat && Qltb flat 0 then 0 else flat.                                     (* :241 *)
+
 Definition finish (p : path_out) (max_grad max_slew raster delay : Q) : tresult trap :=
-  let '(amp2, rise0, flat, fall0) := p in
+  let '(amp2, rise0, flat0, fall0) := p in
   let '(rise, fall) :=
     match rise0, fall0 with
-    | None, None => let r := shortest_rise_time amp2 max_slew raster in (Some r, Some r)   (* :227 *)
+    | None, None => let r := shortest_rise_time amp2 max_slew raster in (Some r, Some r)   (* :225 *)
     | _, _ => (rise0, fall0)
     end in
+  if Qltb (max_grad + eps) (Qabs amp2) then Err E_amp else                                  (* :228 *)
   match rise with
-  | None => Err E_type                                            (* None <= 0 *)
+  | None => Err E_type
   | Some r =>
-    if Qle_bool r 0 then Err E_timing else                                                  (* :230 *)
+    if isz r then Err E_zerodiv else
+    if Qltb (max_slew * (1 + eps)) (Qabs amp2 / r) then Err E_slew_rise else                (* :231 *)
     match fall with
     | None => Err E_type
     | Some f =>
-      if Qle_bool f 0 then Err E_timing else
-      if Qltb flat 0 then Err E_timing else
-      if Qltb (max_grad + eps) (Qabs amp2) then Err E_amp else                              (* :233 *)
-      if Qltb (max_slew * (1 + eps)) (Qabs amp2 / r) then Err E_slew_rise else              (* :236 *)
-      if Qltb (max_slew * (1 + eps)) (Qabs amp2 / f) then Err E_slew_fall else              (* :241 *)
+      if isz f then Err E_zerodiv else
+      if Qltb (max_slew * (1 + eps)) (Qabs amp2 / f) then Err E_slew_fall else              (* :236 *)
+      let flat := clamp_flat flat0 in                                                       (* :241 *)
+      if Qle_bool r 0 || Qle_bool f 0 || Qltb flat 0 then Err E_timing else                 (* :243 *)
       OK {| t_amplitude := amp2; t_rise := r; t_flat := flat; t_fall := f;
-            t_area := amp2 * (flat + r / 2 + f / 2);                                        (* :253 *)
-            t_flat_area := amp2 * flat;                                                     (* :254 *)
+            t_area := amp2 * (flat + r / 2 + f / 2);                                        (* :256 *)
+            t_flat_area := amp2 * flat;                                                     (* :257 *)
             t_delay := delay |}
     end
   end.
